@@ -16,6 +16,7 @@ CONSTANTS
   LineSet = {"endif"}
   MaxD = 0
   AtomSet = {"0"}
+  GapSet = {"sp"}
   OpSet = {"+"}
 INIT Init
 NEXT Next
